@@ -143,6 +143,26 @@ feed (the labels in use: `PUBLIC KEY`, `EC PRIVATE KEY`, `PRIVATE KEY`, `EC PARA
 theorem pem_armour_roundtrip (der name : Bytes) (hname : ∀ c ∈ name, c ≠ 10) :
     Pem.unpem (Pem.topem der name) = .ok der := Pem.unpem_topem der name hname
 
+/-- **keys in PEM**: `VerifyingKey.to_pem` is the armour of `to_der` under the label `PUBLIC KEY` and `from_pem` is
+`from_der ∘ unpem`, so the P-256 key that BEC2 handles as header ‖ raw comes back from its PEM form … -/
+theorem p256_public_key_pem_roundtrip (raw : Bytes) (h : raw.length = 64) :
+    (Pem.unpem (Pem.topem (spki p256oid (0x04 :: raw)) [80, 85, 66, 76, 73, 67, 32, 75, 69, 89])).bind parseSpki =
+      .ok (p256oid, 0x04 :: raw) := by
+  rw [pem_armour_roundtrip _ _ (by decide), p256_header_is_der_prefix raw h]
+  exact p256_header_parses raw h
+
+/-- … and a P-256 private key from `to_pem` (labels `EC PRIVATE KEY` for SEC1, `PRIVATE KEY` for PKCS #8; the search for
+the BEGIN line in `SigningKey.from_pem` starts the armour at its first byte — that step is compared by evaluation) -/
+theorem p256_private_key_pem_roundtrip (fmt : KeyDer.Fmt) (priv pub : Bytes) (hl : priv.length = 32)
+    (hp : pub.length ≤ 1000) (h1 : 1 ≤ fromBE priv) (h2 : (fromBE priv : Int) < Gen.NIST256p.n) :
+    (Pem.unpem (Pem.topem (KeyDer.privToDer fmt p256oid priv pub)
+      (match fmt with
+       | .ssleay => [69, 67, 32, 80, 82, 73, 86, 65, 84, 69, 32, 75, 69, 89]
+       | .pkcs8 => [80, 82, 73, 86, 65, 84, 69, 32, 75, 69, 89]))).bind KeyDer.privFromDer =
+      .ok (Gen.NIST256p, fromBE priv) := by
+  rw [pem_armour_roundtrip _ _ (by cases fmt <;> decide)]
+  exact p256_private_key_der_roundtrip fmt priv pub hl hp h1 h2
+
 /-- the labels in use satisfy the hypothesis, and a concrete armour decodes -/
 example : ∀ c ∈ ([69, 67, 32, 80, 82, 73, 86, 65, 84, 69, 32, 75, 69, 89] : Bytes), c ≠ 10 := by decide  -- "EC PRIVATE KEY"
 example : Pem.unpem (Pem.topem [0x30, 0x03, 0x02, 0x01, 0x05] [80, 85, 66, 76, 73, 67, 32, 75, 69, 89]) =
